@@ -18,7 +18,7 @@ SPEC_BUILTINS = {'forall', 'exists', 'implies', 'iff', 'old', 'ite', 'seq_get', 
 
 def _len_term(ex, v):
     ty = v.ty
-    if ty is TStr: return z3.Length(v.t)
+    if ty is TStr or ty is T.TBytes: return z3.Length(v.t)
     if isinstance(ty, TSeq): return v.t[0]
     if isinstance(ty, TSet): return v.t[1]
     if isinstance(ty, TMap): return v.t[2]
@@ -125,6 +125,13 @@ def call_builtin(ex, name, args, kwargs, node):
         rng = z3.And(i >= 0, i < it.ln)
         if name == 'any': return vbool(z3.Exists([i], z3.And(rng, body)))
         return vbool(z3.ForAll([i], z3.Implies(rng, body)))
+    if name == 'type' and len(args) == 1:
+        a0 = ex.val(args[0])
+        if isinstance(a0.ty, TRef) and not a0.ty.universal and a0.ty.cls in ex.w.class_src:
+            rel_, cls_ = ex.w.class_src[a0.ty.cls]
+            ex.vf.note_assumption('type(x) of a %s taken to be %s itself (no subclass instances)' % (a0.ty.cls, cls_))
+            return ex.class_obj(rel_, cls_)
+        raise Unsupported('type() of %r' % a0.ty)
     if name == 'isinstance':
         return vbool(_isinstance(ex, args[0], args[1]))
     if name == 'repr' or name == 'format':
@@ -137,7 +144,7 @@ def call_builtin(ex, name, args, kwargs, node):
         a, b = ex.val(args[0]), ex.val(args[1])
         q = ex.binop(ast.FloorDiv(), a, b); r = ex.binop(ast.Mod(), a, b)
         return V(TTuple([TInt, TInt]), [q, r])
-    if name == 'dict':
+    if name in ('dict', 'immutables.Map'):
         if not args and not kwargs: return V(TTuple([]), [])
         raise Unsupported('dict(...)')
     if name in ('collections.defaultdict', 'defaultdict', 'collections.OrderedDict', 'OrderedDict'):
@@ -371,7 +378,10 @@ def call_method_builtin(ex, bm, args, kwargs, node):
         for k, v in kwargs.items(): vals[k] = coerce(ex.val(v), ty.fty(k))
         return V(ty, vals)
     if ty is TStr: return _str_method(ex, recv, name, args, kwargs)
-    if ty is TBytes and name == 'decode':
+    if ty is T.TBytes and name == 'join':
+        ex.vf.note_assumption('bytes.join() result treated as an arbitrary byte string')
+        return V(T.TBytes, fresh('joined', z3.StringSort()))
+    if ty is T.TBytes and name == 'decode':
         ex.vf.note_assumption('bytes.decode() modelled as the identity on code points (exact for ASCII text)')
         return V(TStr, recv.t)
     if isinstance(ty, TTuple) and not recv.t and name in E.MUTATING:
@@ -399,6 +409,12 @@ def _str_method(ex, s, name, args, kwargs):
         a, b = args[0], args[1]
         from . import strlib
         return V(TStr, strlib.smart_replace(ex, t, a.t, b.t))
+    if name == 'removeprefix':
+        p_ = args[0].t
+        return V(TStr, z3.If(z3.PrefixOf(p_, t), z3.SubString(t, z3.Length(p_), z3.Length(t) - z3.Length(p_)), t))
+    if name == 'removesuffix':
+        p_ = args[0].t
+        return V(TStr, z3.If(z3.And(z3.SuffixOf(p_, t), z3.Length(p_) > 0), z3.SubString(t, 0, z3.Length(t) - z3.Length(p_)), t))
     if name == 'startswith':
         if isinstance(args[0].ty, TTuple): return vbool(z3.Or(*[z3.PrefixOf(x.t, t) for x in args[0].t]))
         return vbool(z3.PrefixOf(args[0].t, t))
@@ -442,6 +458,9 @@ def _seq_method(ex, bm, recv, name, args, kwargs):
         else: raise Unsupported('tuple.%s' % name)
     ety = recv.ty.elem; ln, arr = recv.t
     if name == 'append':
+        a0 = args[0]
+        if isinstance(a0.ty, TOpt) and not isinstance(ety, TOpt) and not ex.feasible(a0.t[0]):
+            args = [a0.t[1]] + list(args[1:])        # provably not None on this path: keep the element type
         ety2 = join_ty(ety, args[0].ty)
         if ety2 != ety:
             recv = coerce(recv, TSeq(ety2)); ety = ety2; ln, arr = recv.t
@@ -557,8 +576,12 @@ def map_del(ex, recv, k, strict):
 def _map_method(ex, bm, recv, name, args, kwargs):
     ty = recv.ty; dom, val, card = recv.t
     if name == 'get':
-        kt = pack(coerce(args[0], ty.k))
         dflt = args[1] if len(args) > 1 else kwargs.get('default', NONE)
+        a0 = ex.val(args[0])
+        if isinstance(a0.ty, TOpt) and not isinstance(ty.k, TOpt):      # d.get(None) is the default (None is not a key of this map type)
+            kt = pack(coerce(a0.t[1], ty.k))
+            return vite(z3.And(z3.Not(a0.t[0]), z3.Select(dom, kt)), unpack(z3.Select(val, kt), ty.v), ex.val(dflt))
+        kt = pack(coerce(a0, ty.k))
         return vite(z3.Select(dom, kt), unpack(z3.Select(val, kt), ty.v), ex.val(dflt))
     if name == 'pop':
         kt = pack(coerce(args[0], ty.k))
